@@ -1,6 +1,7 @@
 (* C08: an annotated item that uses an unsupported construct in a non-skipped position never
-   parses successfully (so it is reported, C03/C08_cli), outside the two recorded finding classes. *)
-From Coq Require Import String Lia.
+   parses successfully (so it is reported, C03/C08_cli) - no carve-out since the /repo fixes of
+   C08-const-expr and C08-flatten-variant; an accepted const carries the value its initialiser denotes. *)
+From Coq Require Import String Lia BinInt.
 From TS Require Import Model.Str Model.Outcome Model.Unicode Model.Syntax Model.Attrs Model.TargetOs Model.Types Model.Parse.
 From TS Require Import Spec.Serde Spec.TargetOsRule Spec.C08Spec.
 From TS Require Import Proofs.C13 Proofs.FrontAttrs Proofs.FrontTypes Proofs.FrontItems.
@@ -52,40 +53,36 @@ Proof.
   intros _ H. unfold parse_ty_str. destruct (tstr s) as [t|]; [|reflexivity]. now apply unsupported_never_ok.
 Qed.
 
-Lemma variant_no_flatten (v : variant) :
-  (negb (skipped8 T (v_attrs v)) &&
-   match v_fields v with
-   | FNamed l => existsb (fun f => negb (skipped8 T (f_attrs f)) && bare_flatten (f_attrs f)) l
-   | _ => false
-   end) = false ->
+Lemma variant_bad_not_ok (v : variant) :
   variant_bad uc tstr T v = true ->
   is_skipped T (v_attrs v) = false /\ forall ra, is_ok (parse_enum_variant uc tstr T ra v) = false.
 Proof.
-  intros Hnf Hb. unfold variant_bad in Hb. apply andb_true_iff in Hb as [Hs Hb].
-  rewrite Hs in Hnf. cbn [andb] in Hnf. apply negb_true_iff in Hs. rewrite Hskip. split; [exact Hs|].
+  intros Hb. unfold variant_bad in Hb. apply andb_true_iff in Hb as [Hs Hb].
+  apply negb_true_iff in Hs. rewrite Hskip. split; [exact Hs|].
   intros ra. unfold parse_enum_variant.
   destruct (get_ident uc (Some (v_ident v)) (v_attrs v) ra); cbn [bind]; try reflexivity.
   destruct (v_fields v) as [l|l|]; [| |discriminate].
-  - (* struct variant: some non-skipped field has a bad type (flatten excluded by Hnf) *)
-    assert (Hm : is_ok (mapM (parse_field uc tstr false (serde_rename_all uc (v_attrs v)))
-                             (filter (fun f => negb (is_skipped T (f_attrs f))) l)) = false).
-    { apply existsb_exists in Hb as (f & Hin & Hf).
-      unfold field_bad in Hf. apply andb_true_iff in Hf as [Hfs Hf].
-      assert (Hty : type_bad uc tstr (f_attrs f) (f_ty f) = true).
-      { apply orb_true_iff in Hf as [Hf|Hf]; [exact Hf|]. cbn [andb] in Hf.
-        exfalso. assert (existsb (fun f => negb (skipped8 T (f_attrs f)) && bare_flatten (f_attrs f)) l = true).
-        { apply existsb_exists. exists f. split; [exact Hin|]. now rewrite Hfs, Hf. }
-        congruence. }
-      apply mapM_not_ok with (x := f).
-      - apply filter_In. split; [exact Hin|]. rewrite Hskip. exact Hfs.
-      - unfold parse_field, field_type. apply type_bad_not_ok in Hty.
-        destruct (match get_field_type_override uc (f_attrs f) with Some s => _ | None => _ end);
-          [discriminate|reflexivity|reflexivity]. }
+  - (* struct variant: some non-skipped field has a bad type or carries serde(flatten) *)
+    pose proof (fields_bad_not_ok true (serde_rename_all uc (v_attrs v)) l Hb) as Hm.
     destruct (mapM _ _); [discriminate|reflexivity|reflexivity].
   - destruct l as [|f [|f2 r]]; [discriminate| |reflexivity].
     unfold field_type. apply type_bad_not_ok in Hb.
     destruct (match get_field_type_override uc (f_attrs f) with Some s => _ | None => _ end);
       [discriminate|reflexivity|reflexivity].
+Qed.
+
+(* the const initialiser: the code computes exactly the denoted value, and fails when there is none *)
+Lemma const_expr_spec e : match const_value8 e with
+                          | Some z => parse_const_expr e = Ok z
+                          | None => is_ok (parse_const_expr e) = false
+                          end.
+Proof.
+  induction e as [l|x IH|x IH|]; cbn [const_value8 parse_const_expr].
+  - destruct l as [[z|]|]; reflexivity.
+  - exact IH.
+  - destruct (const_value8 x); [rewrite IH; reflexivity|].
+    destruct (parse_const_expr x); [discriminate|reflexivity|reflexivity].
+  - reflexivity.
 Qed.
 
 Definition parse_leaf8 (it : item) : outcome ritem :=
@@ -125,9 +122,9 @@ Proof.
 Qed.
 
 Theorem unsupported_item_never_ok it :
-  item_unsupported uc tstr T it = true -> known_C08 T it = None -> is_ok (parse_leaf8 it) = false.
+  item_unsupported uc tstr T it = true -> is_ok (parse_leaf8 it) = false.
 Proof.
-  intros Hu Hk. destruct it as [attrs ident gens fs|attrs ident gens vs|attrs ident gens t|attrs ident t e|u|inner];
+  intros Hu. destruct it as [attrs ident gens fs|attrs ident gens vs|attrs ident gens t|attrs ident t e|u|inner];
     cbn [item_unsupported parse_leaf8] in *; try discriminate.
   - (* struct *)
     unfold parse_struct, override_of in *. destruct (get_serialized_as_type uc attrs) as [s|] eqn:Es.
@@ -146,24 +143,11 @@ Proof.
     + destruct (get_ident _ _ _ _); cbn [bind]; try reflexivity.
       pose proof (serialized_as_bad attrs s Es Hu) as Hn.
       destruct (parse_ty_str tstr s); [discriminate|reflexivity|reflexivity].
-    + cbn [known_C08] in Hk.
-      destruct (existsb _ vs) eqn:Eflat in Hk; [discriminate|].
-      destruct (mapM _ _) as [variants| |] eqn:Em; cbn [bind]; try reflexivity.
+    + destruct (mapM _ _) as [variants| |] eqn:Em; cbn [bind]; try reflexivity.
       apply orb_true_iff in Hu as [Hu|Hu].
       * (* a bad variant: mapM cannot have succeeded *)
         exfalso. apply existsb_exists in Hu as (v & Hin & Hv).
-        assert (Hnf : (negb (skipped8 T (v_attrs v)) &&
-                       match v_fields v with
-                       | FNamed l => existsb (fun f => negb (skipped8 T (f_attrs f)) && bare_flatten (f_attrs f)) l
-                       | _ => false
-                       end) = false).
-        { destruct (negb _ && _) eqn:E; [|reflexivity].
-          assert (existsb (fun v => negb (skipped8 T (v_attrs v)) &&
-                     match v_fields v with
-                     | FNamed l => existsb (fun f => negb (skipped8 T (f_attrs f)) && bare_flatten (f_attrs f)) l
-                     | _ => false end) vs = true) by (apply existsb_exists; eauto).
-          congruence. }
-        destruct (variant_no_flatten v Hnf Hv) as [Hs Hn].
+        destruct (variant_bad_not_ok v Hv) as [Hs Hn].
         assert (Hm : is_ok (mapM (parse_enum_variant uc tstr T (serde_rename_all uc attrs))
                                  (filter (fun v => negb (is_skipped T (v_attrs v))) vs)) = false).
         { apply mapM_not_ok with (x := v); [|apply Hn]. apply filter_In. split; [exact Hin|now rewrite Hs]. }
@@ -182,14 +166,27 @@ Proof.
       pose proof (unsupported_never_ok t' Hu). destruct (parse_ty t'); [discriminate|reflexivity|reflexivity].
     + pose proof (unsupported_never_ok t Hu). destruct (parse_ty t); [discriminate|reflexivity|reflexivity].
   - (* const *)
-    unfold parse_const. cbn [known_C08] in Hk.
-    destruct (ce_first_lit e) as [[[z|]|]|]; cbn [bind]; try reflexivity.
+    unfold parse_const. pose proof (const_expr_spec e) as He.
     apply orb_true_iff in Hu as [Hu|Hu].
-    + unfold type_bad, override_of in Hu. destruct (get_serialized_as_type uc attrs) as [s|].
+    + destruct (parse_const_expr e); cbn [bind]; try reflexivity.
+      unfold type_bad, override_of in Hu. destruct (get_serialized_as_type uc attrs) as [s|].
       * unfold parse_ty_str. destruct (tstr s) as [t'|]; [|reflexivity].
         pose proof (unsupported_never_ok t' Hu). destruct (parse_ty t'); [discriminate|reflexivity|reflexivity].
       * pose proof (unsupported_never_ok t Hu). destruct (parse_ty t); [discriminate|reflexivity|reflexivity].
-    + destruct (ce_plain e); [discriminate|]. unfold cls8 in Hk. discriminate.
+    + destruct (const_value8 e); [discriminate|].
+      destruct (parse_const_expr e); [discriminate|reflexivity|reflexivity].
+Qed.
+
+(* never mis-generated: a const that is accepted carries the value its initialiser denotes *)
+Theorem const_value_faithful attrs ident t e c :
+  parse_const uc tstr attrs ident t e = Ok (ItConst c) -> const_value8 e = Some (cvalue c).
+Proof.
+  unfold parse_const. pose proof (const_expr_spec e) as He.
+  destruct (parse_const_expr e) as [z| |] eqn:Ez; cbn [bind]; try discriminate.
+  destruct (const_value8 e) as [z'|]; [|discriminate]. injection He as ->.
+  destruct (match get_serialized_as_type uc attrs with Some s => _ | None => _ end) as [rt| |]; cbn [bind]; try discriminate.
+  destruct rt; try discriminate;
+    (destruct (get_ident _ _ _ _); cbn [bind]; try discriminate; intros [= <-]; reflexivity).
 Qed.
 End U.
 
@@ -198,33 +195,48 @@ Lemma skip_no_target attrs : is_skipped [] attrs = skipped8 [] attrs.
 Proof. unfold is_skipped, skipped8, accepts. cbn. now rewrite skip_marker_spec. Qed.
 
 Theorem unsupported_item_never_ok_no_target uc tstr it :
-  item_unsupported uc tstr [] it = true -> known_C08 [] it = None -> is_ok (parse_leaf8 uc tstr [] it) = false.
+  item_unsupported uc tstr [] it = true -> is_ok (parse_leaf8 uc tstr [] it) = false.
 Proof. apply unsupported_item_never_ok. apply skip_no_target. Qed.
 
-(* witnesses: the two finding classes are real (the unrestricted statement is false of the model) *)
+(* regression pins of the two fixed finding classes (before the /repo fixes both items parsed Ok) *)
 Definition a_typeshare : attr := {| a_inner := false; a_meta := MPath [lit "typeshare"] |}.
 Definition ty_u8 : ty := TPath [] (lit "u8") [].
+Definition c08_const (e : cexpr) : item := IConst [a_typeshare] (lit "X") (TPath [] (lit "i32") []) e.
+Definition c08_lit (n : positive) : cexpr := CELit (CInt (Some (Zpos n))).
 
-Lemma C08_const_expr_refuted :
-  let it := IConst [a_typeshare] (lit "X") (TPath [] (lit "i32") [])
-                   {| ce_first_lit := Some (CInt (Some (Zpos 5))); ce_plain := None |} in   (* const X: i32 = -5; *)
-  item_unsupported uc_exec (fun _ => None) [] it = true /\ known_C08 [] it <> None /\
-  is_ok (parse_leaf8 uc_exec (fun _ => None) [] it) = true.
-Proof. vm_compute. repeat split; discriminate. Qed.
+(* const X: i32 = -5;  and  = -(5): accepted with the value -5 (was 5);
+   = 1 + 2 / foo(7) / 7 as u32 (any other expression): rejected with RustConstExprInvalid (was 1 / 7 / 7);
+   = "s": RustConstTypeInvalid *)
+Lemma C08_const_expr_fixed :
+  (forall e, In e [CENeg (c08_lit 5); CENeg (CEParen (c08_lit 5)); CEParen (CENeg (c08_lit 5))] ->
+     item_unsupported uc_exec (fun _ => None) [] (c08_const e) = false /\
+     match parse_leaf8 uc_exec (fun _ => None) [] (c08_const e) with
+     | Ok (ItConst c) => cvalue c = Zneg 5
+     | _ => False
+     end) /\
+  item_unsupported uc_exec (fun _ => None) [] (c08_const CEOther) = true /\
+  parse_leaf8 uc_exec (fun _ => None) [] (c08_const CEOther) = Err EConstExprInvalid /\
+  parse_leaf8 uc_exec (fun _ => None) [] (c08_const (CENeg CEOther)) = Err EConstExprInvalid /\
+  parse_leaf8 uc_exec (fun _ => None) [] (c08_const (CELit CNotInt)) = Err EConstTypeInvalid.
+Proof.
+  split; [|vm_compute; repeat split].
+  intros e [<-|[<-|[<-|[]]]]; vm_compute; split; reflexivity.
+Qed.
 
-Lemma C08_flatten_variant_refuted :
+(* #[serde(tag = "t", content = "c")] enum E { V { #[serde(flatten)] x: u8 } } *)
+Lemma C08_flatten_variant_fixed :
   let flat := {| a_inner := false; a_meta := MList [lit "serde"] (Some [MPath [lit "flatten"]]) None |} in
   let tagc := {| a_inner := false; a_meta := MList [lit "serde"] (Some [MNV [lit "tag"] (VStr (lit "t")); MNV [lit "content"] (VStr (lit "c"))]) None |} in
   let it := IEnum [a_typeshare; tagc] (lit "E") []
                   [{| v_attrs := []; v_ident := lit "V"; v_fields := FNamed [{| f_attrs := [flat]; f_ident := Some (lit "x"); f_ty := ty_u8 |}] |}] in
-  item_unsupported uc_exec (fun _ => None) [] it = true /\ known_C08 [] it <> None /\
-  is_ok (parse_leaf8 uc_exec (fun _ => None) [] it) = true.
-Proof. vm_compute. repeat split; discriminate. Qed.
+  item_unsupported uc_exec (fun _ => None) [] it = true /\
+  parse_leaf8 uc_exec (fun _ => None) [] it = Err ESerdeFlatten.
+Proof. vm_compute. split; reflexivity. Qed.
 
 Example C08_nonvacuous :
   let it := IStruct [a_typeshare] (lit "S") []
                     (FNamed [{| f_attrs := []; f_ident := Some (lit "a");
                                 f_ty := TPath [] (lit "Vec") [Some (TPath [] (lit "Option") [Some (TPath [] (lit "u64") [])])] |}]) in
-  item_unsupported uc_exec (fun _ => None) [] it = true /\ known_C08 [] it = None /\
+  item_unsupported uc_exec (fun _ => None) [] it = true /\
   is_ok (parse_leaf8 uc_exec (fun _ => None) [] it) = false.
 Proof. vm_compute. repeat split. Qed.
